@@ -104,6 +104,29 @@ class E2ERaised(Exception):
     pass
 
 
+def impl_process(item):
+    """The command as a REAL process (own stdout, status output enabled) against the same command with --no-status:
+    the spelling of the status option must not change a byte of the diff or the exit status."""
+    import subprocess
+    d = item['dir']
+    os.makedirs(d, exist_ok=True)
+    paths = []
+    for name, text in item['files']:
+        p = os.path.join(d, name)
+        with open(p, 'w', encoding='utf-8', newline='') as f:
+            f.write(text)
+        paths.append(p)
+    outs = []
+    for extra in ([], ['--no-status'], ['--quiet']):
+        pr = subprocess.run([sys.executable, '-m', 'graphtage'] + item['argv'] + extra + paths,
+                            stdout=subprocess.PIPE, stderr=subprocess.PIPE, timeout=180)
+        outs.append({'extra': extra, 'status': pr.returncode, 'stdout': pr.stdout.decode('utf-8', 'surrogateescape'),
+                     'traceback': 'Traceback' in pr.stderr.decode('utf-8', 'replace')})
+    for p in paths:
+        os.unlink(p)
+    return {'runs': outs}
+
+
 def impl_end_to_end(item):
     """main(argv) on real files, then the library pipeline with the configuration main() resolved."""
     import graphtage
@@ -259,6 +282,43 @@ E2E_OPTS = [[], ['-k'], ['-ds', 'none'], ['-ds', 'match'], ['-j'], ['-jl', '-jd'
             ['--format', 'xml'], ['--format', 'yaml'], ['--format', 'csv']]
 
 
+# documents whose rendered diff contains characters that str.splitlines treats as line boundaries (\r, \x0b, \x0c, \x1c-\x1e,
+# U+0085, U+2028, U+2029) or that a terminal-oriented writer might touch (tab, backspace, ESC)
+PROC_DOCS = [('yaml', 'a: "x\\u2028y\\x0cz"\nb: "l1\\rl2"\nc: old\nd: "p\\x85q\\x1cr\\u2029s"\n',
+              'a: "x\\u2028y\\x0cz"\nb: "l1\\rl2!"\nc: new\nd: "p\\x85q\\x1cr\\u2029s"\n'),
+             ('xml', '<r a="u\u2028v"><t>x\u0085y</t><k>same\u2029</k></r>', '<r a="u\u2028w"><t>x\u0085z</t><k>same\u2029</k></r>'),
+             ('csv', 'a\x0cb,c\x1cd\n1,2\n', 'a\x0cb,c\x1cd\n1,3\n'),
+             ('json', '{"k": "tab\\there", "l": [1, 2]}', '{"k": "tab\\there", "l": [1, 3]}'),
+             ('yaml', 'k: "a\\x0bb"\nl: [1, 2]\n', 'k: "a\\x0bb\\x1dc"\nl: [2, 1]\n')]
+PROC_OPTS = [['--no-color'], ['--no-color', '-k'], ['--no-color', '-e'], ['--no-color', '-d'], ['--color']]
+
+
+def gen_process_cases(tier, rng, workdir):
+    cases = []
+    n = 0
+    for ty, a, b in PROC_DOCS:
+        for opts in PROC_OPTS:
+            if tier == 'quick' and opts not in (PROC_OPTS[0], PROC_OPTS[3]) and rng.random() < 0.6:
+                continue
+            cases.append({'argv': list(opts), 'dir': os.path.join(workdir, f'proc{n}'),
+                          'files': [[f'x.{ty}', a], [f'y.{ty}', b]], 'doc': [ty, a, b], 'process': True})
+            n += 1
+    return cases
+
+
+def process_bad(o):
+    """[reason] if the three runs of one case (status on / --no-status / --quiet) disagree where they must agree"""
+    r0, r1, r2 = o['runs']
+    bad = []
+    if r0['status'] != r1['status'] or r0['status'] != r2['status']:
+        bad.append('exit status depends on the status option')
+    if r0['stdout'] != r1['stdout']:
+        bad.append('the diff on standard output differs between status output enabled and --no-status')
+    if r0['traceback'] != r1['traceback']:
+        bad.append('only one of the two runs ends in a traceback')
+    return bad
+
+
 def gen_e2e_cases(tier, rng, workdir):
     cases = []
     n = 0
@@ -398,6 +458,20 @@ def check(tier, seed):
             n_e2e += 1
             if o['cli_text'] != o['lib_text'] or o['cli_status'] != o['lib_status']:
                 run.violation({'kind': 'cli-differs-from-library', 'argv': c['argv'], 'files': c['files'], 'result': o})
+        proc = gen_process_cases(tier, rng, wd.path)
+        n_proc = 0
+        for c, r in zip(proc, common.run_impl('pC14', 'impl_process', proc)):
+            run.count(['process', c['argv'], c['doc']], nontrivial=True)
+            if 'ok' not in r:
+                run.violation({'kind': 'process-run-internal-error', 'argv': c['argv'], 'files': c['files'], 'process': True,
+                               'result': r})
+                continue
+            n_proc += 1
+            why = process_bad(r['ok'])
+            if why:
+                run.violation({'kind': 'status-option-changes-the-output', 'why': why, 'argv': c['argv'], 'files': c['files'],
+                               'process': True, 'result': r['ok']})
+        run.cov['process_cases'] = n_proc
         run.cov['traces_validated_against_impl'] = len(keep) + n_e2e
         run.cov['end_to_end_runs_where_both_sides_raised_alike'] = n_raised
         if st['broken'] and not run.violations:
@@ -440,7 +514,12 @@ def replay(path):
     wd = common.Workdir(PROP + 'r')
     try:
         st = common.build(['theories/CliModel.vo'], [])
-        if 'files' in obj:
+        if obj.get('process'):
+            r = common.run_impl('pC14', 'impl_process',
+                                [{'argv': obj['argv'], 'files': obj['files'], 'dir': wd.file('proc')}], nproc=1)[0]
+            print(json.dumps(r, indent=1)[:3000])
+            bad = 'ok' not in r or bool(process_bad(r['ok']))
+        elif 'files' in obj:
             r = common.run_impl('pC14', 'impl_end_to_end',
                                 [{'argv': obj['argv'], 'files': obj['files'], 'dir': wd.file('e2e')}], nproc=1)[0]
             print(json.dumps(r, indent=1)[:3000])
